@@ -1,0 +1,41 @@
+//! Read-only observation hooks for external verification tooling.
+//!
+//! Compiled only with `--cfg brood_verif`. Nothing here mutates a `World`.
+
+use alloc::vec::Vec;
+
+/// Raw, read-only snapshot of one archetype table.
+#[derive(Clone, Debug)]
+pub struct ArchetypeDump {
+    /// Address of the identifier buffer (the key `IdentifierRef`s compare by).
+    pub identifier_addr: usize,
+    /// Capacity recorded for the identifier buffer.
+    pub identifier_capacity: usize,
+    /// The identifier bytes.
+    pub identifier_bytes: Vec<u8>,
+    /// `(pointer, capacity)` of the entity identifier column.
+    pub entity_identifiers_raw: (usize, usize),
+    /// Entity identifiers stored in rows `0..length`, as `(index, generation)`.
+    pub entity_identifiers: Vec<(usize, u64)>,
+    /// `(pointer, capacity)` of every component column, in storage order.
+    pub components_raw: Vec<(usize, usize)>,
+    /// Shared row count.
+    pub length: usize,
+}
+
+/// Raw, read-only snapshot of a `World`'s bookkeeping.
+#[derive(Clone, Debug)]
+pub struct Dump {
+    /// `World::len`.
+    pub len: usize,
+    /// Allocator slots: `(generation, Some((identifier address, row)))`.
+    pub slots: Vec<(u64, Option<(usize, usize)>)>,
+    /// Allocator free queue, front first.
+    pub free: Vec<usize>,
+    /// Archetypes in table iteration order.
+    pub archetypes: Vec<ArchetypeDump>,
+    /// Target identifier addresses of `type_id_lookup`.
+    pub type_id_lookup: Vec<usize>,
+    /// `(key address, key length, target identifier address)` of `foreign_identifier_lookup`.
+    pub foreign_identifier_lookup: Vec<(usize, usize, usize)>,
+}
